@@ -22,6 +22,8 @@ def run_one(mod, case):
     """Run one case; harness exceptions become verdict=error (inconclusive), never a violation."""
     t = time.time()
     try:
+        from aegmon import common
+        common.reset_scratch()
         res = mod.run(case)
     except Exception:
         res = {'verdict': 'error', 'error': traceback.format_exc()[-4000:]}
